@@ -92,6 +92,9 @@ def h : Handler := fun op j =>
   | "html_table" => do
       let subs ← (← getArr j "substances").mapM fun e => do pure ((← getStr e "key").toList, (← getStr e "name").toList)
       pure ((showRes (perSubstanceTable subs (← getContainer j) (← getStr j "header").toList)).replace "\n" "\\n")
+  | "number_to_x_any" => do
+      pure (showRes (numberToXAny (← getFmt j) (← optArg j "p" asInt) (← getRat j "x") (← optArg j "explicit" asRat)
+        (← optArg j "carried" asRat) (← optArg j "unit" asChars)))
   | "number_to_x_cb" => do
       pure (showRes (numberToXCallback (← getFmt j) (← getStr j "text").toList (← optArg j "unit" asChars)))
   | "pow_ten" => do
